@@ -117,8 +117,13 @@ func fixedScenarios() []*script {
 		mk("lazy", 100, 100, 1500, pspec{3, 10, []int{45}}),                                // idle = block
 		mk("lazy", 100, 500, 2000, pspec{0, 10, []int{140, 145, 150, 155}}),                // burst: one slot
 		mk("lazy", 100, 500, 2200, pspec{0, 10, []int{150}}, pspec{1, 10, []int{140}}, pspec{2, 70, []int{20, 50}}),
+		withDD(mk("lazy", 100, 400, 2100), 130),  // idle chain whose productions all outlast the block interval
+		withDD(mk("normal", 100, 500, 1700), 60), // normal mode: elapsed production time is deducted from the interval
+		withDD(mk("lazy", 80, 300, 2000, pspec{1, 60, []int{100}}, pspec{3, 60, []int{20}}), 60),
 	}
 }
+
+func withDD(sc *script, dd int) *script { sc.dd = dd; return sc }
 
 var ratios = [][2]int{{100, 500}, {100, 250}, {100, 100}, {80, 400}, {120, 300}, {100, 300}, {200, 80}, {150, 60}, {90, 450}, {110, 165}}
 
@@ -509,6 +514,9 @@ func Run(c *hx.Ctx) {
 			seen[f.sig] = true
 			c.St.Findings = append(c.St.Findings, hx.Finding{Signature: f.sig, What: f.what, Scenario: j.scenario, Ops: j.ops})
 		}
+	}
+	if c.St.Findings == nil {
+		c.St.Findings = []hx.Finding{} // "findings": [] rather than null in the stats file
 	}
 	for _, l := range lines {
 		c.Emit("%s", l.out)
